@@ -58,7 +58,16 @@ func retainedCells(col *Collector, r *RNG, tier string, gen func(*RNG, string) [
 		}
 		t, _ := strconv.Atoi(lf["t"])
 		md, _ := strconv.Atoi(lf["md"])
-		return item{line: line, t: byte(t), md: uint16(md), u: lf["u"] == "1", data: exact(append(unhx(f["bytes"]), unhx(lf["rest"])...)), want: sp[0]}, true
+		it := item{line: line, t: byte(t), md: uint16(md), u: lf["u"] == "1", data: exact(append(unhx(f["bytes"]), unhx(lf["rest"])...)), want: sp[0]}
+		// only cells whose single decode is right take part (a wrong single decode is the business of the per-cell
+		// cases; a sibling may also be out of the type's domain)
+		okNow := false
+		func() {
+			defer func() { recover() }()
+			v, _, err := replication.CellBytes(exact(it.data), 0, it.t, it.md, it.u)
+			okNow = err == nil && hx(v) == it.want
+		}()
+		return it, okNow
 	}
 	sibling := func(line string) string {
 		// change the last numeric component of v=… (keeping its digit count where possible)
@@ -96,9 +105,12 @@ func retainedCells(col *Collector, r *RNG, tier string, gen func(*RNG, string) [
 		parts[len(parts)-1] = strconv.FormatUint(m, 10)
 		return line[:i+3] + strings.Join(parts, ":") + line[i+3+j:]
 	}
+	if rounds < 3*len(types) {
+		rounds = 3 * len(types)
+	}
 	for k := 0; k < rounds; k++ {
 		n := r.Range(2, 12)
-		sub := byType[types[r.Intn(len(types))]]
+		sub := byType[types[k%len(types)]]
 		base := r.Intn(len(sub))
 		var items []item
 		for i := 0; i < n; i++ {
@@ -111,7 +123,7 @@ func retainedCells(col *Collector, r *RNG, tier string, gen func(*RNG, string) [
 				continue
 			}
 			items = append(items, it)
-			for s := 0; s < 2 && r.Chance(1, 2); s++ {
+			for s := 0; s < 3 && r.Chance(2, 3); s++ {
 				if sl := sibling(c.Line); sl != "" {
 					if it2, ok := mk(sl); ok {
 						items = append(items, it2)
